@@ -209,7 +209,7 @@ PROPS = {
         "case_type": "pool_case",
         "check": "pool_check",
         "diag": "pool_diag",
-        "theories": ["theories/Base.v", "theories/Nonce.v", "theories/Store.v", "theories/StoreProofs.v", "theories/Pool.v", "theories/PoolProofs.v", "theories/BalanceProofs.v", "theories/Conc.v", "theories/ConcProofs.v"],
+        "theories": ["theories/Base.v", "theories/Nonce.v", "theories/Store.v", "theories/StoreProofs.v", "theories/Pool.v", "theories/PoolProofs.v", "theories/BalanceProofs.v", "theories/Conc.v", "theories/ConcProofs.v", "theories/Locks.v", "theories/LocksProofs.v", "gen/Facts.v"],
         "check_theories": ["theories/Check12.v", "theories/CheckPool.v"],
         "level_text": "Coq theorems over the payment-service model: a withdrawal is executed iff settlement is enabled, "
                       "deposit + credit meets the minimum and the settlement succeeds; it pays exactly that balance minus "
@@ -562,7 +562,7 @@ PROPS = {
         "timeout_quick": 1200,
         "theories": ["theories/Base.v", "theories/Store.v", "theories/StoreProofs.v", "theories/Pool.v", "theories/PoolProofs.v",
                      "theories/BalanceProofs.v", "theories/Conc.v", "theories/ConcProofs.v", "theories/SerialProofs.v",
-                     "theories/Snapshot.v", "theories/SnapshotProofs.v", "theories/NonceProofs.v", "gen/Facts.v"],
+                     "theories/Snapshot.v", "theories/SnapshotProofs.v", "theories/NonceProofs.v", "gen/Facts.v", "theories/Locks.v", "theories/LocksProofs.v", "gen/Facts.v"],
         "check_theories": ["theories/Check10.v"],
         "level_text": "Four parts of different strength. (a) Store operations are atomic: computed obligations over "
                       "facts regenerated from the sources (every in-memory method takes the mutex, Lock then deferred "
